@@ -5,6 +5,7 @@ import (
 	"fmt"
 	"io"
 	"strings"
+	"sync"
 
 	"github.com/fluhus/biostuff/formats/bed"
 	"github.com/fluhus/biostuff/formats/fasta"
@@ -64,6 +65,22 @@ const samLine = "%s\t%d\tchr1\t%d\t60\t4M\t=\t%d\t0\tACGT\t%s"
 // corpus returns the well-formed inputs of a format: size = "small" (8-14 bytes, LF only),
 // "medium" (40-200 bytes), "large" (one file of about 9 KiB crossing the 4096-byte buffers twice).
 func corpus(format, size string) [][]byte {
+	corpusMu.Lock()
+	defer corpusMu.Unlock()
+	if c, ok := corpusCache[format+"/"+size]; ok {
+		return c
+	}
+	c := buildCorpus(format, size)
+	corpusCache[format+"/"+size] = c
+	return c
+}
+
+var (
+	corpusMu    sync.Mutex
+	corpusCache = map[string][][]byte{}
+)
+
+func buildCorpus(format, size string) [][]byte {
 	var out []string
 	switch format + "/" + size {
 	case "fasta/small":
